@@ -260,5 +260,74 @@ theorem continuousSubpaths_continuous (segs : List (Ends P)) :
   rw [isContinuous_iff]
   exact subpathsAux_continuous segs [] (by simp) (by simp) p hp
 
+/-- two consecutive pieces do not join: the end of the last segment of the first is not the start
+of the first segment of the second -/
+def NoJoin (A B : List (Ends P)) : Prop := ∀ a ∈ A.getLast?, ∀ b ∈ B.head?, a.2 ≠ b.1
+
+theorem subpathsAux_head (l cur : List (Ends P)) :
+    ∃ p rest, subpathsAux l cur = p :: rest ∧ p.head? = (cur.reverse ++ l).head? := by
+  induction l generalizing cur with
+  | nil => exact ⟨cur.reverse, [], by simp [subpathsAux], by simp⟩
+  | cons a rest ih =>
+    cases rest with
+    | nil => exact ⟨(a :: cur).reverse, [], by simp [subpathsAux], by simp⟩
+    | cons b rest =>
+      unfold subpathsAux
+      split
+      · exact ⟨(a :: cur).reverse, _, rfl, by simp⟩
+      · obtain ⟨p, r, e, hp⟩ := ih (a :: cur)
+        exact ⟨p, r, e, by rw [hp]; simp⟩
+
+/-- **maximality**: consecutive pieces returned by `continuous_subpaths` never join -/
+theorem subpathsAux_maximal (l cur : List (Ends P)) : (subpathsAux l cur).IsChain NoJoin := by
+  induction l generalizing cur with
+  | nil => simp [subpathsAux]
+  | cons a rest ih =>
+    cases rest with
+    | nil => simp [subpathsAux]
+    | cons b rest =>
+      unfold subpathsAux
+      split
+      · rename_i hne
+        obtain ⟨p, r, e, hp⟩ := subpathsAux_head (b :: rest) ([] : List (Ends P))
+        have hch := ih ([] : List (Ends P))
+        rw [e] at hch ⊢
+        rw [List.isChain_cons_cons]
+        refine ⟨?_, hch⟩
+        intro x hx y hy
+        rw [hp] at hy
+        simp at hx hy
+        subst hx; subst hy
+        exact hne
+      · exact ih (a :: cur)
+
+theorem continuousSubpaths_maximal (segs : List (Ends P)) : (continuousSubpaths segs).IsChain NoJoin :=
+  subpathsAux_maximal segs []
+
+/-- every piece is non-empty (for a non-empty path) -/
+theorem subpathsAux_nonempty (l cur : List (Ends P)) (h : l ≠ [] ∨ cur ≠ []) : ∀ p ∈ subpathsAux l cur, p ≠ [] := by
+  induction l generalizing cur with
+  | nil =>
+    intro p hp
+    simp [subpathsAux] at hp
+    subst hp
+    rcases h with h | h
+    · exact absurd rfl h
+    · simpa using h
+  | cons a rest ih =>
+    cases rest with
+    | nil => intro p hp; simp [subpathsAux] at hp; subst hp; simp
+    | cons b rest =>
+      intro p hp
+      unfold subpathsAux at hp
+      split at hp
+      · rcases List.mem_cons.mp hp with h' | h'
+        · subst h'; simp
+        · exact ih [] (Or.inl (by simp)) p h'
+      · exact ih (a :: cur) (Or.inl (by simp)) p hp
+
+theorem continuousSubpaths_nonempty (segs : List (Ends P)) (h : segs ≠ []) : ∀ p ∈ continuousSubpaths segs, p ≠ [] :=
+  subpathsAux_nonempty segs [] (Or.inl h)
+
 end continuity
 end SvgVerif.Props.C05
